@@ -3,10 +3,11 @@ import noise
 
 
 PAYLOADS = ["u8", "i64", "String", "Option<u16>", "P", "Seven", "Vec<u8>", "(u8, bool)", "char", "bool", "Box<u8>", "&'static str",
-            "()", "[u8; 3]", "std::rc::Rc<u8>", "core::marker::PhantomData<u8>", "Option<Box<Seven>>"]
+            "()", "[u8; 3]", "std::rc::Rc<u8>", "core::marker::PhantomData<u8>", "Option<Box<Seven>>", "std::string::String",
+            "::core::option::Option<u8>", "(String, (u8, char))"]
 
 # variant identifiers that collide with prelude items or with names the generated code uses internally
-TRICKY_IDENTS = ["Some", "None", "Ok", "Err", "Option", "Default", "Iterator", "Clone", "Self_", "Idx", "BackIdx", "Marker", "Get",
+TRICKY_IDENTS = ["_A", "B_", "C1_", "D_e", "AVeryLongVariantIdentifierThatGoesOnAndOnAndOnForMoreThanSixtyFourCharactersInTotal", "Some", "None", "Ok", "Err", "Option", "Default", "Iterator", "Clone", "Self_", "Idx", "BackIdx", "Marker", "Get",
                  "Len", "Next", "Nth", "T", "U", "K", "Item", "PhantomData", "Box", "Vec", "String"]
 
 PLACEMENTS = ["none", "first", "middle", "last", "adjacent", "alternating", "all", "random"]
